@@ -28,10 +28,13 @@ EXPLANATION = (
     "first in the per-version share tuples that are counted; (8) the servermap the repairer's refusal gates and the "
     "republish run on is always the result of the repairer's own ServermapUpdater(..).update() in a mode for which "
     "ServermapUpdater.update queries the full permuted server list (MODE_REPAIR / MODE_CHECK): _got_full_servermap has "
-    "no other caller or reference, nothing between update() and it replaces the map, and MutableFileNode.repair goes "
-    "through Repairer.start. "
+    "no other caller or reference, nothing between update() and it replaces the map, MutableFileNode.repair goes "
+    "through Repairer.start, and MutableChecker.check maps in an all-servers mode as well. "
     "Undecided: post-repair share counts / placement, an unrecoverable version with the same seqnum as the best one, "
-    "the completion policy of the mapupdate after the initial queries were sent (that every queried server is waited for).")
+    "the completion policy of the mapupdate after the initial queries were sent (that every queried server is waited for). "
+    "Reported, not enforced: MutableCheckAndRepairer checks in MODE_WRITE (bounded search, to fetch the privkey), so the "
+    "pre-repair verdict of check_and_repair can call a file healthy while another version sits on servers beyond the search "
+    "boundary; clause (8) enforces the all-servers mode for the plain checker and for the repair's own mapupdate only.")
 TECHNIQUE = "static analysis: CFG x abstract-state monitor (constant propagation over branch facts), must-precede gates, Deferred chain order, who-may-call"
 
 CHK = "mutable.checker:MutableChecker"
@@ -972,6 +975,396 @@ def run(ctx: Context):
         for n in mu.cfg().find(is_return):
             v = n.ast.value
             r.require(isinstance(v, ast.Name) and v.id == mp, mu, mu.loc(n.ast), "_got_mapupdate_results passes %s on to the verifier" % src(mu, v))
+
+    # -- 7. how the servermap classifies versions ---------------------------------
+    with ctx.rule("C14.7", "R3/E3", "ServerMap: a version is recoverable iff k <= number of DISTINCT share numbers of its shares; "
+                  "recoverable_versions / unrecoverable_versions hold exactly those classes, unrecoverable_newer_versions keeps every "
+                  "unrecoverable version above the highest recoverable seqnum, needs_merge reports equal recoverable seqnums",
+                  expected=7) as r:
+        # (a) the per-version share tuples start with the share number
+        mv = idx.func(SMAP + ".make_versionmap")
+        mvn = FlowNorm(mv)
+        mcfg = mv.cfg()
+        mheads = [n for n in mcfg.nodes if n.kind == "iter" and re.match(r"^(list\()?self\._known_shares\.items\(\)\)?$", mvn.norm(n, n.ast.iter))]
+        if len(mheads) != 1:
+            raise AnchorVanished("loop over self._known_shares.items() in make_versionmap")
+        mt = mheads[0].ast.target
+        if not (isinstance(mt, ast.Tuple) and len(mt.elts) == 2):
+            raise AnchorVanished("make_versionmap loop target (key, value)")
+
+        def comp(t, i, e):       # `e` denotes component i of what the target `t` is bound to
+            if isinstance(t, (ast.Tuple, ast.List)) and len(t.elts) == 2:
+                return isinstance(t.elts[i], ast.Name) and isinstance(e, ast.Name) and e.id == t.elts[i].id
+            if isinstance(t, ast.Name):
+                return isinstance(e, ast.Subscript) and isinstance(e.value, ast.Name) and e.value.id == t.id \
+                    and isinstance(e.slice, ast.Constant) and e.slice.value == i and not isinstance(e.slice.value, bool)
+            return False
+        vm_adds = [c for n in mcfg.nodes for c in calls_at(n, "add") if len(c.args) == 2]
+        if not vm_adds:
+            raise AnchorVanished("versionmap.add(verinfo, (shnum, ..)) in make_versionmap")
+        for c in vm_adds:
+            r.site(mv, c, "share tuple")
+            tup = c.args[1]
+            r.require(comp(mt.elts[1], 0, c.args[0]), mv, mv.loc(c), "make_versionmap files the share under %s, not under the version it belongs to" % src(mv, c.args[0]))
+            r.require(isinstance(tup, ast.Tuple) and len(tup.elts) >= 1 and comp(mt.elts[0], 1, tup.elts[0]), mv, mv.loc(c),
+                      "the first element of the per-version share tuple %s is not the share number of the (server, shnum) key: the "
+                      "distinct-share counts of every version would count something else" % src(mv, tup))
+        ans = idx.func(SMAP + ".add_new_share")
+        ap = first_positional_params(ans)
+        ann = FlowNorm(ans)
+        ok_key = False
+        for n in ans.cfg().nodes:
+            a = n.ast
+            if n.kind == "stmt" and isinstance(a, ast.Assign) and len(a.targets) == 1 and isinstance(a.targets[0], ast.Subscript) \
+                    and attr_path(a.targets[0].value) == "self._known_shares":
+                r.site(ans, a, "known-share key")
+                ok_key = True
+                r.require(len(ap) >= 2 and ann.norm(n, a.targets[0].slice) == "(%s, %s,)" % (ap[0], ap[1]), ans, ans.loc(a),
+                          "known shares are keyed by %s, not (server, shnum)" % ann.norm(n, a.targets[0].slice))
+        if not ok_key:
+            raise AnchorVanished("self._known_shares[(server, shnum)] = .. in add_new_share")
+
+        # (b) recoverable_versions / unrecoverable_versions: exactly the class
+        for (mname, want, other) in (("recoverable_versions", "ge", "lt"), ("unrecoverable_versions", "lt", "ge")):
+            fn = idx.func(SMAP + "." + mname)
+            fnorm = FlowNorm(fn)
+            cfg, head, vname, sname = _versionmap_loop(fn, fnorm)
+            kstr, tests = _recoverability_tests(r, fn, fnorm, cfg, head, vname, sname)
+            R = _returned_name(fn, cfg)
+            if not any(_adds_to(n, R, vname) for n in cfg.nodes):
+                raise AnchorVanished("%s.add(%s) in %s" % (R, vname, mname))
+
+            def step(n, lab, st, _f=fnorm, _t=tests, _k=kstr, _R=R, _v=vname):
+                cls, added = st
+                cls = _cls_step(_f, _t, _k, n, lab, cls)
+                if cls is None:
+                    return None
+                if n.kind == "stmt" and _adds_to(n, _R, _v):
+                    added = True
+                return (cls, added)
+            visited, parent, back = _loop_iterations(cfg, head, ("?", False), step)
+            r.count(len(visited))
+            for (nid, st) in visited:
+                if st != "start" and cfg.nodes[nid].kind == "exit":
+                    raise AnalysisError("%s leaves its version loop early (%s)" % (mname, witness(cfg, parent, (nid, st)).brief()))
+            seen = set()
+            for ((cls, added), w) in back:
+                if added and cls != want and ("add", cls) not in seen:
+                    seen.add(("add", cls))
+                    r.violation(fn, fn.loc(head.ast), "%s() includes a version although %s (path: %s)" % (mname, CLS_TXT[cls], w.brief()), w)
+                if not added and cls in (want, "mixed") and ("skip", cls) not in seen:
+                    seen.add(("skip", cls))
+                    r.violation(fn, fn.loc(head.ast), "%s() leaves a version out although %s (path: %s)" % (mname, CLS_TXT[cls], w.brief()), w)
+
+        # (c) unrecoverable_newer_versions
+        fn = idx.func(SMAP + ".unrecoverable_newer_versions")
+        fnorm = FlowNorm(fn)
+        cfg, head, vname, sname = _versionmap_loop(fn, fnorm)
+        kstr, tests = _recoverability_tests(r, fn, fnorm, cfg, head, vname, sname)
+        D = _returned_name(fn, cfg)
+        # second loop: the one whose body stores D[v2]
+        body_of = {}
+        for h in cfg.nodes:
+            if h.kind == "iter" and h is not head:
+                vis, _p, _b = _loop_iterations(cfg, h, 0, lambda n, lab, st: st)
+                body_of[h.id] = {nid for (nid, st) in vis if st != "start"}
+
+        def d_store(n, item):
+            a = n.ast
+            return n.kind == "stmt" and isinstance(a, ast.Assign) and len(a.targets) == 1 and isinstance(a.targets[0], ast.Subscript) \
+                and attr_path(a.targets[0].value) == D and isinstance(a.targets[0].slice, ast.Name) and a.targets[0].slice.id == item
+        head2 = None
+        for h in cfg.nodes:
+            if h.id in body_of and isinstance(h.ast.target, ast.Name) and any(d_store(cfg.nodes[i], h.ast.target.id) for i in body_of[h.id]):
+                head2 = h
+        if head2 is None:
+            raise AnchorVanished("loop that fills the returned dict %s in unrecoverable_newer_versions" % D)
+        v2 = head2.ast.target.id
+        U = _strip_wrappers(head2.ast.iter)
+        if not isinstance(U, ast.Name):
+            raise AnchorVanished("collection of unrecoverable versions iterated in unrecoverable_newer_versions")
+        U = U.id
+        vis1, _p1, _b1 = _loop_iterations(cfg, head, 0, lambda n, lab, st: st)
+        body1 = {nid for (nid, st) in vis1 if st != "start" and nid != head.id}
+        stored1 = set()
+        for i in body1:
+            stored1 |= {x for x in node_stores(cfg.nodes[i]) if re.match(r"^\w+$", x)}
+        read2 = set()
+        for i in body_of[head2.id]:
+            m = cfg.nodes[i]
+            if m.kind == "test":
+                read2 |= {x.id for x in ast.walk(m.ast) if isinstance(x, ast.Name)}
+        stored2 = set()
+        for i in body_of[head2.id]:
+            stored2 |= node_stores(cfg.nodes[i])
+        hs = (stored1 & read2) - stored2 - {vname, sname, v2}     # carried over, not a per-iteration local of the second loop
+        if len(hs) != 1:
+            raise AnchorVanished("the highest recoverable seqnum carried from the classification loop to the newer-than test (candidates %s)" % sorted(hs))
+        H = hs.pop()
+        V0, S2 = "%s[0]" % vname, "%s[0]" % v2
+        r.site(fn, head2.ast, "newer-than loop over %s against %s" % (U, H))
+
+        def h_store_ok(n):
+            v = assign_value(n, H)
+            if v is None:
+                return False
+            if fnorm.norm(n, v) == V0:
+                return True
+            if isinstance(v, ast.Call) and call_name(v) == "max" and len(v.args) == 2 and not v.keywords:
+                return sorted(fnorm.norm(n, a) for a in v.args) == sorted([H, V0])
+            return False
+
+        def step1(n, lab, st):
+            cls, added, hbad = st
+            cls = _cls_step(fnorm, tests, kstr, n, lab, cls)
+            if cls is None:
+                return None
+            if n.kind == "stmt" and _adds_to(n, U, vname):
+                added = True
+            if n.kind in ("stmt", "iter", "with") and H in node_stores(n):
+                if not (n.kind == "stmt" and h_store_ok(n)):
+                    hbad = "value"
+                elif cls != "ge":
+                    hbad = hbad or "class"
+            return (cls, added, hbad)
+        if not any(_adds_to(n, U, vname) for n in cfg.nodes):
+            raise AnchorVanished("%s.add(%s) in unrecoverable_newer_versions" % (U, vname))
+        visited, parent, back = _loop_iterations(cfg, head, ("?", False, ""), step1)
+        r.count(len(visited))
+        for (nid, st) in visited:
+            if st != "start" and cfg.nodes[nid].kind == "exit":
+                raise AnalysisError("unrecoverable_newer_versions leaves its version loop early")
+        seen = set()
+        for ((cls, added, hbad), w) in back:
+            if not added and cls in ("lt", "mixed") and ("skip", cls) not in seen:
+                seen.add(("skip", cls))
+                r.violation(fn, fn.loc(head.ast), "unrecoverable_newer_versions() does not consider a version unrecoverable although %s: "
+                            "repair without force would not refuse to discard it (path: %s)" % (CLS_TXT[cls], w.brief()), w)
+            if not added and cls == "?" and not tests and "untested" not in seen:
+                seen.add("untested")
+                r.violation(fn, fn.loc(head.ast), "unrecoverable_newer_versions() never compares a version's distinct share count with k")
+            if hbad == "value" and "hv" not in seen:
+                seen.add("hv")
+                r.violation(fn, fn.loc(head.ast), "%s is set to something other than max(%s, seqnum of the version) (path: %s)" % (H, H, w.brief()), w)
+            if hbad == "class" and "hc" not in seen:
+                seen.add("hc")
+                r.violation(fn, fn.loc(head.ast), "%s is raised by a version of which %s: a newer unrecoverable version would hide itself "
+                            "or another one from the newer-than test (path: %s)" % (H, CLS_TXT[cls], w.brief()), w)
+        # H elsewhere: only constants below every seqnum
+        for n in cfg.nodes:
+            if n.id in body1 or H not in node_stores(n):
+                continue
+            v = assign_value(n, H) if n.kind == "stmt" else None
+            try:
+                c = ast.literal_eval(v) if v is not None else None
+            except (ValueError, TypeError, SyntaxError):
+                c = None
+            r.require(isinstance(c, int) and not isinstance(c, bool) and c <= 0, fn, fn.loc(n.ast),
+                      "%s is set to %s outside the classification loop: it must start below every sequence number and only grow with "
+                      "recoverable versions" % (H, src(fn, v) if v is not None else "an opaque value"))
+
+        def step2(n, lab, st):
+            gated, stored = st
+            if n.kind == "test" and isinstance(lab, tuple):
+                op, l, rr = _fact(fnorm, n, lab)
+                if (op, l, rr) in (("<=", S2, H), ("<", S2, H)) or (op == "==" and {l, rr} == {S2, H}):
+                    gated = True
+            if d_store(n, v2):
+                stored = True
+            return (gated, stored)
+        visited, parent, back = _loop_iterations(cfg, head2, (False, False), step2)
+        r.count(len(visited))
+        for (nid, st) in visited:
+            if st != "start" and cfg.nodes[nid].kind == "exit":
+                raise AnalysisError("unrecoverable_newer_versions leaves its second loop early")
+        for ((gated, stored), w) in back:
+            if not stored and not gated:
+                r.violation(fn, fn.loc(head2.ast), "an unrecoverable version is left out of unrecoverable_newer_versions() without its seqnum "
+                            "having been found <= the highest recoverable seqnum %s (path: %s)" % (H, w.brief()), w)
+                break
+
+        # (d) needs_merge
+        nm = idx.func(SMAP + ".needs_merge")
+        nn = FlowNorm(nm)
+        ncfg = nm.cfg()
+        ndefs = all_defs(nm)
+        r.site(nm, None, "needs_merge")
+
+        def seqnum_list(name):
+            ds = ndefs.get(name, [])
+            if len(ds) != 1 or not isinstance(ds[0], ast.ListComp) or len(ds[0].generators) != 1:
+                return None
+            g = ds[0].generators[0]
+            if g.ifs or not _item0_of(g.target, ds[0].elt) or not isinstance(g.target, ast.Name):
+                return None
+            return _strip_wrappers(g.iter)
+        nheads = [n for n in ncfg.nodes if n.kind == "iter"]
+        L = None
+        if len(nheads) == 1 and isinstance(nheads[0].ast.target, ast.Name):
+            it = _strip_wrappers(nheads[0].ast.iter)
+            if isinstance(it, ast.Name) and seqnum_list(it.id) is not None:
+                L = it.id
+        if L is not None:
+            nh = nheads[0]
+            sv = nh.ast.target.id
+            srcit = seqnum_list(L)
+            r.require(nn.norm(nh, srcit) == "self.recoverable_versions()", nm, nm.loc(nh.ast),
+                      "needs_merge looks at the seqnums of %s, not of the recoverable versions" % src(nm, srcit))
+            CNT = "%s.count(%s)" % (L, sv)
+            bad_ret = []
+
+            def step3(n, lab, st):
+                if n.kind == "stmt" and isinstance(n.ast, ast.Return):
+                    v = n.ast.value
+                    if not (isinstance(v, ast.Constant) and v.value is True):
+                        bad_ret.append(n)
+                    return None
+                if n.kind == "test" and isinstance(lab, tuple):
+                    op, l, rr = _fact(nn, n, lab)
+                    if (op, l, rr) in (("<=", CNT, "1"), ("<", CNT, "2")) or (op == "==" and {l, rr} == {CNT, "1"}):
+                        return True
+                return st
+            visited, parent, back = _loop_iterations(ncfg, nh, False, step3)
+            r.count(len(visited))
+            for n in bad_ret[:1]:
+                r.violation(nm, nm.loc(n.ast), "needs_merge answers %s from inside its loop before all recoverable seqnums were examined" % src(nm, n.ast.value))
+            for (st, w) in back:
+                if st is not True:
+                    r.violation(nm, nm.loc(nh.ast), "needs_merge goes on to the next seqnum without having found that this one occurs only once "
+                                "among the recoverable versions (path: %s)" % w.brief(), w)
+                    break
+        else:
+            # closed form: fewer distinct seqnums than recoverable versions
+            rets = ncfg.find(is_return)
+            cands = [nme for nme in ndefs if seqnum_list(nme) is not None]
+            ok = False
+            for n in rets:
+                for nme in cands:
+                    if nn.norm(n, n.ast.value) in (norm_src("len(set(%s)) != len(%s)" % (nme, nme)), norm_src("len(set(%s)) < len(%s)" % (nme, nme))) \
+                            and nn.norm(n, seqnum_list(nme)) == "self.recoverable_versions()":
+                        ok = True
+            if not (ok and len(rets) == 1):
+                raise AnalysisError("needs_merge: neither the per-seqnum count loop nor the len(set(..)) closed form was recognised")
+
+    # -- 8. the servermap the repair decides on is its own full mapupdate ---------------
+    with ctx.rule("C14.8", "R4/E7", "Repairer._got_full_servermap only ever receives the result of the repairer's own "
+                  "ServermapUpdater(..).update() in a mode that queries every server; MutableFileNode.repair goes through Repairer.start",
+                  expected=4) as r:
+        st = idx.func(REP + ".start")
+        entries = _gfs_entries(st)
+        if not entries:
+            raise AnchorVanished("_got_full_servermap registration in Repairer.start")
+        allowed = {id(u) for (_x, _f, u) in entries}
+        uses = _uses_everywhere(idx, GFS)
+        r.count(len(uses))
+        for (f, node, is_call) in uses:
+            if id(node) in allowed:
+                continue
+            r.violation(f, f.loc(node), "%s %s _got_full_servermap outside the callback chain of the repairer's own mapupdate: the refusal "
+                        "gates (unrecoverable newer versions, needs_merge) and the republish would run on a servermap the repair did not "
+                        "refresh (stale, or incomplete when it was built in another mode)" % (short(f), "calls" if is_call else "hands on"))
+        sdefs = all_defs(st)
+        folder = get_folder(idx)
+        modes = _all_server_modes(idx, r)
+        r.site("ServermapUpdater.update", None, "modes that query the full server list: %s" % ("all" if modes is None else sorted(map(str, modes))))
+        if modes is not None and not modes:
+            r.violation("allmydata.mutable.servermap:ServermapUpdater.update", "", "no mode of ServermapUpdater.update queries the full server list")
+        ini = idx.func("mutable.servermap:ServermapUpdater.__init__")
+        dflt = dict(zip(reversed([a.arg for a in ini.node.args.args]), reversed(ini.node.args.defaults)))
+        allregs = registrations(st)
+        for (x, _f, use) in entries:
+            r.site(st, x.call, "servermap source")
+            dvs = sdefs.get(x.recv, []) if x.recv else []
+            if not dvs:
+                r.violation(st, st.loc(x.call), "_got_full_servermap is registered on a Deferred of unknown origin")
+                continue
+            for v in dvs:
+                base = _unchain_regs(v) if v is not None else None
+                upds = None
+                if isinstance(base, ast.Call) and call_tail(base) == "update" and not base.args and not base.keywords \
+                        and isinstance(base.func, ast.Attribute):
+                    rv = base.func.value
+                    if isinstance(rv, ast.Name):
+                        ds = sdefs.get(rv.id, [])
+                        if ds and all(isinstance(d, ast.Call) and call_tail(d) == "ServermapUpdater" for d in ds):
+                            upds = ds
+                    elif isinstance(rv, ast.Call) and call_tail(rv) == "ServermapUpdater":
+                        upds = [rv]
+                if upds is None:
+                    r.violation(st, st.loc(v if v is not None else x.call), "the Deferred that feeds _got_full_servermap is %s, not the result "
+                                "of the repairer's own ServermapUpdater(..).update(): the refusal gates would not see the current grid" % (
+                                    src(st, v) if v is not None else "opaque"))
+                    continue
+                for u in upds:
+                    m = arg(u, 4, "mode")
+                    mmod = st.module
+                    if m is None:
+                        m, mmod = dflt.get("mode"), ini.module      # the default is an expression of the updater's module
+                    try:
+                        mval = folder.fold(m, mmod, st.cls) if m is not None else None
+                    except NotConstant:
+                        mval = None
+                    if mval is None:
+                        raise AnalysisError("cannot fold the mapupdate mode %s of Repairer.start" % (src(st, m) if m is not None else "?"))
+                    r.require(modes is None or mval in modes, st, st.loc(u), "the repair's mapupdate runs in %s, which does not query every "
+                              "server: a newer version beyond the search boundary stays invisible to the refusal gates" % mval)
+                    nd = arg(u, 0, "filenode")
+                    r.require(nd is not None and attr_path(nd) == "self.node", st, st.loc(u), "the repair's mapupdate looks at %s, not at the node being repaired" % (
+                        src(st, nd) if nd is not None else "?"))
+            # nothing between update() and _got_full_servermap replaces the map
+            chain = [y for y in allregs if y.recv == x.recv]
+            for y in chain:
+                if y.call is x.call:
+                    break
+                t = y.target
+                passthrough = y.kind == "cb" and isinstance(t, ast.Lambda) and len(t.args.args) == 1 and isinstance(t.body, ast.Name) \
+                    and t.body.id == t.args.args[0].arg
+                r.require(passthrough, st, st.loc(y.call), "callback %r runs between the mapupdate and _got_full_servermap and can replace the servermap" % y)
+        # the plain checker's verdict ("no other versions") needs the same: its mapupdate queries every server
+        chk = idx.func(CHK + ".check")
+        cups = calls_in_func(chk, "ServermapUpdater")
+        if not cups:
+            raise AnchorVanished("ServermapUpdater(..) in MutableChecker.check")
+        base_ci = idx.cls(CHK)
+        for c in cups:
+            r.site(chk, c, "checker mapupdate mode")
+            m = arg(c, 4, "mode")
+            mmod = chk.module
+            if m is None:
+                m, mmod = dflt.get("mode"), ini.module
+            for ci in [base_ci] + [x for x in idx.subclasses(base_ci) if x is not base_ci]:
+                try:
+                    mval = folder.fold(m, mmod, ci)
+                except NotConstant:
+                    raise AnalysisError("cannot fold the mapupdate mode %s of %s.check" % (src(chk, m), ci.name))
+                if modes is None or mval in modes:
+                    continue
+                if ci is base_ci:
+                    r.violation(chk, chk.loc(c), "MutableChecker.check updates its servermap in %s, which does not query every server: a file "
+                                "is reported healthy although another version sits on servers beyond the search boundary" % mval)
+                else:
+                    # reported, not enforced: see the final note in EXPLANATION (check-and-repair searches in MODE_WRITE by design)
+                    ctx.note("C14.8: %s.check updates its servermap in %s (bounded search): its pre-repair verdict can miss versions on far "
+                             "servers; the repair itself re-maps in an all-servers mode" % (ci.name, mval))
+        # MutableFileNode.repair -> Repairer(..).start(force)
+        nr = idx.func(NODE + ".repair")
+        nrn = FlowNorm(nr)
+        r.site(nr, None, "repair entry")
+        good = []
+        for c in calls_in_func(nr, "start"):
+            rv = c.func.value if isinstance(c.func, ast.Attribute) else None
+            if isinstance(rv, ast.Name):
+                ds = all_defs(nr).get(rv.id, [])
+                if ds and all(isinstance(d, ast.Call) and call_tail(d) == "Repairer" for d in ds):
+                    good.append(c)
+            elif isinstance(rv, ast.Call) and call_tail(rv) == "Repairer":
+                good.append(c)
+        r.require(bool(good), nr, nr.loc(), "MutableFileNode.repair does not run Repairer(..).start(force)")
+        for n in nr.cfg().find(is_return):
+            v = _unchain_regs(nrn.resolve(n, n.ast.value)) if n.ast.value is not None else None
+            r.require(any(v is c for c in good), nr, nr.loc(n.ast), "MutableFileNode.repair returns %s, not the outcome of Repairer.start" % (
+                src(nr, n.ast.value) if n.ast.value is not None else "None"))
+
 
 
 def call_name_of(e):
